@@ -25,11 +25,13 @@ def liftR {α} (r : Res α) : m α := liftM r
 def argTypeErr {α} : m α := liftR (.err Gen.EXC_RT_FUNC_ARG_TYPE_S)
 def rerr {α} (code : Nat) : m α := liftR (.err code)
 
-/-- The C++ cast `Integer(d)` of a double: truncation when representable, undefined otherwise. -/
+/-- `Value::toInteger(d)`: truncation toward zero when the value is representable (−2^63 ≤ d < 2^63),
+the error OUT_OF_RANGE otherwise (NaN, ±inf, beyond the range) — the range-checked conversion every
+built-in and member uses for a decimal position, count or element. -/
 def castToInt (d : F64) : Res Int64 :=
   match truncInt d with
-  | some z => if -2 ^ 63 ≤ z ∧ z < 2 ^ 63 then .ok (Int64.ofInt z) else .haz .floatToInt
-  | none => .haz .floatToInt
+  | some z => if -2 ^ 63 ≤ z ∧ z < 2 ^ 63 then .ok (Int64.ofInt z) else .err Gen.EXC_RT_OUT_OF_RANGE
+  | none => .err Gen.EXC_RT_OUT_OF_RANGE
 
 /-- `int64 + int64` / `int64 - int64` as C signed arithmetic: undefined on overflow. -/
 def sadd (a b : Int64) : Res Int64 :=
@@ -141,8 +143,8 @@ def biStrpos (args : List (Thunk m)) : m Val := do
         let a2 ← t2
         match a2.type.major with
         | .none => return .null Ty.int
-        | .int => s ← a2.asInt            -- no null test in the C++: nullDeref for a typed null
-        | .num => do let d ← a2.asNum; s ← castToInt d
+        | .int => if !a2.isNull then s ← a2.asInt
+        | .num => if !a2.isNull then do let d ← a2.asNum; s ← castToInt d
         | _ => argTypeErr
         if s < 0 then rerr Gen.EXC_RT_INDEX_RANGE_S else pure ()
       | [] => pure ()
